@@ -131,6 +131,42 @@ class _Meta(ast.NodeTransformer):
         return n
 
 
+class _ScopeComprehensions(ast.NodeTransformer):
+    """Comprehension variables live in their own scope: in the skeleton each comprehension's targets get names of their own,
+    so they become metavariables independent of a like-named local of the function (`for node in [f(node) for node in xs]`
+    matches `for node in [f(c) for c in xs]`)."""
+
+    def __init__(self):
+        self.k = 0
+
+    def _comp(self, n):
+        self.k += 1
+        tag = f"__c{self.k}"
+        bound = {x.id for g in n.generators for x in ast.walk(g.target) if isinstance(x, ast.Name)}
+
+        class R(ast.NodeTransformer):
+            def visit_Name(self, m):
+                if m.id in bound:
+                    m.id = m.id + tag
+                return m
+        r = R()
+        first = n.generators[0].iter
+        for field, val in ast.iter_fields(n):
+            if field == "generators":
+                for i, g in enumerate(val):
+                    g.target = r.visit(g.target)
+                    if i > 0:
+                        g.iter = r.visit(g.iter)
+                    g.ifs = [r.visit(x) for x in g.ifs]
+            elif isinstance(val, ast.AST):
+                setattr(n, field, r.visit(val))
+        n.generators[0].iter = first
+        self.generic_visit(n)
+        return n
+
+    visit_ListComp = visit_SetComp = visit_DictComp = visit_GeneratorExp = _comp
+
+
 HEADER_FIELDS = {
     ast.If: ("test",), ast.While: ("test",), ast.For: ("target", "iter"), ast.AsyncFor: ("target", "iter"),
     ast.With: ("items",), ast.AsyncWith: ("items",), ast.Try: (), ast.FunctionDef: ("args",), ast.AsyncFunctionDef: ("args",),
@@ -229,6 +265,7 @@ def contains(P: Project, fi: FunctionInfo, expected_src: str) -> Tuple[bool, str
     exp_fn = exp_mod.body[0]
     exp_fn = _normalise_function(P, fi, exp_fn, already=False)
     exp_fn = _Blank().visit(copy.deepcopy(exp_fn))
+    exp_fn = _ScopeComprehensions().visit(exp_fn)
     exp_fn = _Meta(_locals_of(exp_fn)).visit(exp_fn)
     ast.fix_missing_locations(exp_fn)
     ast.fix_missing_locations(actual)
